@@ -500,7 +500,7 @@ func (x *c18Exec) callerField(r *Run, sc c18Scenario, rep c18Replay) {
 // ---- generators ----
 
 func c18Pool(home string) (keys []string, repls []string) {
-	keys = []string{"/a/b", "/a/b/c", "/a/bc", "/opt/x", c18Root + "/w", c18Root + "/w/sub", home, "github.com/acme/app", "vendor/x"} // two relative keys (module-relative file names of -trimpath builds)
+	keys = []string{"/a/b", "/a/b/c", "/a/bc", "/opt/x", c18Root + "/w", c18Root + "/w/sub", home, "github.com/acme/app", "vendor/x", "/srv/ci/$ws", "/mnt/c/$RECYCLE.BIN/${job}"} // two relative keys (module-relative file names of -trimpath builds)
 	repls = []string{"~", ".", "$ab", "W", "~work", "$GOPATH/src"}
 	return
 }
@@ -681,6 +681,13 @@ func runC18(r *Run) {
 		Ops: []c18Op{{Kind: "add", K: "github.com/acme/app", V: "ACME"}, {Kind: "add", K: "vendor/x", V: "VX"}, {Kind: "rxadd", K: `/node_modules/`, V: "/nm/"}}},
 		[]string{"github.com/acme/app/internal/db/a.go", "github.com/acme/apple/x.go", "github.com/acme/app", "vendor/x/y/z.go", "vendor/xy/z.go",
 			"a/node_modules/b.js", "github.com/acme/app/node_modules/b.js", "other/rel.go"}})
+	// directory names with a dollar sign are names, not variables
+	corpus = append(corpus, struct {
+		sc    c18Scenario
+		paths []string
+	}{c18Scenario{Priv: true, Rx: false, FlagAPI: "set", Cwd: c18Root + "/w",
+		Ops: []c18Op{{Kind: "add", K: "/srv/ci/$ws", V: "WS"}, {Kind: "add", K: "/mnt/c/$RECYCLE.BIN/${job}", V: "BIN"}, {Kind: "add", K: "/opt/$HOME", V: "OH"}}},
+		[]string{"/srv/ci/$ws/src/a.go", "/srv/ci/$wsx/a.go", "/mnt/c/$RECYCLE.BIN/${job}/f", "/opt/$HOME/x.go", "/opt" + home + "/x.go", "/srv/ci//src/a.go"}})
 	for _, c := range corpus {
 		x.run(r, c.sc, c.paths, reps, "corpus")
 	}
